@@ -21,6 +21,7 @@ static clip_t make_clip(int kind, int w, int h)
     case 3: c.n = 3; c.b[0] = (pixman_box32_t){ 1, 0, 3, 1 }; c.b[1] = (pixman_box32_t){ w / 2, 0, w, 1 }; c.b[2] = (pixman_box32_t){ 2, h - 1, w - 1, h }; c.name = "3bands"; if (h < 2) c.n = 2; break;
     case 4: c.n = 0; c.empty = 1; c.name = "empty"; break;
     case 5: c.n = 1; c.b[0] = (pixman_box32_t){ -3, -2, w + 5, h + 4 }; c.name = "larger-than-image"; break;
+    case 7: c.n = 1; c.b[0] = (pixman_box32_t){ 0, 0, w, h }; c.name = "exactly-the-image"; break;
     case 6: c.n = 2; c.b[0] = (pixman_box32_t){ 0, 0, w / 2, (h + 1) / 2 }; c.b[1] = (pixman_box32_t){ w / 2 + 1, (h + 1) / 2, w, h }; c.name = "two-corners(extents=image,holes)"; if (h < 2) { c.b[0].y2 = 1; c.b[1].y1 = 0; c.b[1].y2 = 1; } break;
     }
     return c;
@@ -47,10 +48,12 @@ static const sopt_t SOPT[] = {
     { 1, 1, 1, 0 }, { 2, 1, 1, 0 }, { 3, 1, 1, 0 }, { 4, 1, 1, 0 },
     { 1, 1, 1, -1 }, { 2, 1, 1, 2 }, { 3, 1, 1, -1 }, { 1, 1, 1, 2 }, { 2, 1, 1, -1 },
     { 1, 0, 1, 0 }, { 1, 1, 0, 0 }, { 2, 0, 0, 2 }, { 4, 0, 1, 0 }, { 4, 1, 0, -1 },
+    /* clips that contain every pixel of the source itself: they clip nothing as a destination clip, but bound the request when the image is a source */
+    { 7, 1, 1, 2 }, { 7, 1, 1, -1 }, { 5, 1, 1, -1 }, { 7, 1, 1, 0 },
 };
 #define NSOPT ((int)(sizeof SOPT / sizeof SOPT[0]))
-static const int SOPT_Q[] = { 0, 1, 2, 6, 10, 11, 4 };
-#define NSOPT_Q 7
+static const int SOPT_Q[] = { 0, 1, 2, 6, 10, 11, 4, 15 };
+#define NSOPT_Q 8
 
 typedef struct { int kind; int ox, oy; int dw, dh; } aopt_t;   /* alpha map: kind 0 none; size = dest size + dw/dh */
 static const aopt_t AOPT[] = { { 0, 0, 0, 0, 0 }, { 1, 0, 0, 0, 0 }, { 1, 1, 0, -2, -1 }, { 1, -1, 1, 0, 0 } };
